@@ -58,7 +58,7 @@ theorem getD_take_zero {l : List ℝ} {m : Nat} (hm : 1 ≤ m) : (l.take m).getD
     simp
 
 theorem getD_take_lt {l : List ℝ} {m e : Nat} (he : e < m) : (l.take m).getD e 0 = l.getD e 0 := by
-  simp [List.getD_eq_getElem?_getD, List.getElem?_take, he]
+  simp [List.getD_eq_getElem?_getD, he]
 
 /-- **Upper bound.**  The lowest Ritz value is at most the Rayleigh quotient of the start vector:
 `θ₀ ‖v‖² ≤ ⟪v, A v⟫` (and `‖v‖² > 0`), for every Hermitian map, start vector and iteration count. -/
@@ -136,7 +136,7 @@ theorem ritz_lower {Afun : List 𝕜 → List 𝕜} {dnorm : List 𝕜 → ℝ} 
   have hun : 0 < u.n := by
     obtain ⟨alpha, beta, V, hl, _, rfl, rfl⟩ := eighKrylov_ok h
     have hE' := hE alpha beta V hl
-    obtain ⟨h1, _⟩ := C14.lanczos_shapes Afun dnorm hl
+    obtain ⟨h1, _⟩ := lanczos_sizes Afun dnorm hl
     show 0 < min numeig (deigh alpha beta).2.n
     rw [hE'.Un]; omega
   obtain ⟨h1, h2⟩ := hr 0 0 hun hun
@@ -236,22 +236,25 @@ example : EighSpec [0, 0] [1] ([-1, 1], ⟨2, 2, fun r c => if r = 1 ∧ c = 0 t
   have hs : Real.sqrt 2 / 2 * (Real.sqrt 2 / 2) = 1 / 2 := by
     have := Real.mul_self_sqrt (show (0 : ℝ) ≤ 2 by norm_num)
     nlinarith
+  have two : ∀ a : Nat, a < [(0 : ℝ), 0].length → a = 0 ∨ a = 1 := fun a ha => by
+    have : a < 2 := ha
+    omega
   refine ⟨rfl, rfl, rfl, ?_, ?_, ?_, ?_⟩
   · intro i j hij hj
-    have hj' : j < 2 := hj
-    interval_cases j <;> interval_cases i <;> simp
+    rcases two j hj with rfl | rfl
+    · have : i = 0 := by omega
+      subst this; simp
+    · have : i = 0 ∨ i = 1 := by omega
+      rcases this with rfl | rfl <;> simp
   · intro a b ha hb
-    have ha' : a < 2 := ha
-    have hb' : b < 2 := hb
-    interval_cases a <;> interval_cases b <;> simp [Finset.sum_range_succ] <;> nlinarith
+    rcases two a ha with rfl | rfl <;> rcases two b hb with rfl | rfl <;>
+      simp [Finset.sum_range_succ] <;> nlinarith
   · intro a b ha hb
-    have ha' : a < 2 := ha
-    have hb' : b < 2 := hb
-    interval_cases a <;> interval_cases b <;> simp [Finset.sum_range_succ] <;> nlinarith
+    rcases two a ha with rfl | rfl <;> rcases two b hb with rfl | rfl <;>
+      simp [Finset.sum_range_succ] <;> nlinarith
   · intro a b ha hb
-    have ha' : a < 2 := ha
-    have hb' : b < 2 := hb
-    interval_cases a <;> interval_cases b <;> simp [tridiag, Finset.sum_range_succ] <;> nlinarith
+    rcases two a ha with rfl | rfl <;> rcases two b hb with rfl | rfl <;>
+      simp [tridiag, Finset.sum_range_succ] <;> nlinarith
 
 /-- the hypotheses of `ritz_upper`, `ritz_vectors`, `ritz_lower` are jointly satisfiable and the call returns:
 the 2-norm, the Hermitian matrix `[[2, 1], [1, 2]]` (with lower bound `μ = 0` of its quadratic form …), one iteration,
@@ -272,7 +275,7 @@ example : ∃ (Afun : List ℝ → List ℝ) (M : Nat → Nat → ℝ) (dnorm : 
     · rw [if_neg h, if_neg (Ne.symm h)]
   have hAt : EighAt (matvec A) sqrtNorm deigh [1, 0] 1 := by
     intro alpha beta V hl
-    obtain ⟨h1, h2, h3, _, _⟩ := C14.lanczos_shapes _ _ hl
+    obtain ⟨h1, h2, h3, _, _⟩ := lanczos_sizes _ _ hl
     have hlen : alpha.length = 1 := by omega
     have hb : beta = [] := List.eq_nil_of_length_eq_zero (by omega)
     obtain ⟨a, rfl⟩ : ∃ a, alpha = [a] := by
@@ -293,10 +296,10 @@ example : ∃ (Afun : List ℝ → List ℝ) (M : Nat → Nat → ℝ) (dnorm : 
       simp [deigh, tridiag]
   refine ⟨matvec A, A.f, sqrtNorm, deigh, [1, 0], sqrtNorm_contract, actsAs_matvec A rfl rfl, hH,
     isHermitian_matvec A rfl rfl hH, hAt, ?_⟩
-  obtain ⟨⟨alpha, beta, V⟩, hl⟩ := C14.lanczos_returns (matvec A) (sqrtNorm (𝕜 := ℝ)) (vstart := [1, 0]) (numiter := 1)
+  obtain ⟨⟨alpha, beta, V⟩, hl⟩ := lanczos_isOk (matvec A) (sqrtNorm (𝕜 := ℝ)) (vstart := [1, 0]) (numiter := 1)
     ((sqrtNorm_contract.pos_iff _).2 ⟨1, by simp, one_ne_zero⟩) (by omega)
   have hE' := hAt alpha beta V hl
-  obtain ⟨_, _, _, _, hVn⟩ := C14.lanczos_shapes _ _ hl
+  obtain ⟨_, _, _, _, hVn⟩ := lanczos_sizes _ _ hl
   unfold eighKrylov
   rw [hl]
   simp only [bind, Except.bind]
@@ -305,7 +308,7 @@ example : ∃ (Afun : List ℝ → List ℝ) (M : Nat → Nat → ℝ) (dnorm : 
 
 /-- the hypothesis on `dexp` of `expm_norm` is satisfiable: any function into the unit circle, e.g. the constant `1`
 (the genuine `exp` satisfies it as well) -/
-example : ∀ x : ℝ, ‖(fun _ : ℂ => (1 : ℂ)) (RCLike.I * (x : ℂ))‖ = 1 := by
+example : ∀ x : ℝ, ‖(fun _ : 𝕜 => (1 : 𝕜)) (RCLike.I * (x : 𝕜))‖ = 1 := by
   intro x; simp
 
 end Ptn.C15
